@@ -1,7 +1,7 @@
 // Copyright 2020-2024 IOTA Stiftung
 // SPDX-License-Identifier: Apache-2.0
 
-use flate2::read::GzDecoder;
+use flate2::read::MultiGzDecoder;
 use flate2::write::GzEncoder;
 use flate2::Compression;
 use identity_core::convert::Base;
@@ -115,7 +115,8 @@ impl StatusList2021 {
     let status_list = {
       use std::io::Read;
 
-      let mut decompressor = GzDecoder::new(&compressed_status_list[..]);
+      // A gzip file is a series of members (RFC 1952, 2.2); encoders that compress in blocks write several.
+      let mut decompressor = MultiGzDecoder::new(&compressed_status_list[..]);
       let mut status_list = vec![];
       decompressor
         .read_to_end(&mut status_list)
